@@ -127,13 +127,57 @@ def _send_order(fn: ast.FunctionDef, who: str) -> List[str]:
     return steps
 
 
+class _Subst(ast.NodeTransformer):
+    def __init__(self, env):
+        self.env = env
+
+    def visit_Name(self, n):
+        if isinstance(n.ctx, ast.Load) and n.id in self.env:
+            return self.env[n.id]
+        return n
+
+
+def _inline_aliases(stmts: List[ast.stmt]) -> List[ast.stmt]:
+    """Drop top-level `name = <attribute chain>` statements (`hz = sender_network_interface.frequency.frequency_hz`) and
+    `name = self.bandwidth_load.setdefault(KEY, 0.0)` (read as `self.bandwidth_load[KEY]` after the missing-key initialisation),
+    substituting them in what follows: the same meaning in another shape is read as the same."""
+    import copy
+    env, out = {}, []
+    for st in stmts:
+        st = _Subst(env).visit(copy.deepcopy(st))
+        if isinstance(st, ast.Assign) and len(st.targets) == 1 and isinstance(st.targets[0], ast.Name):
+            v = st.value
+            chain = v
+            while isinstance(chain, ast.Attribute):
+                chain = chain.value
+            if isinstance(v, ast.Attribute) and isinstance(chain, ast.Name):
+                env[st.targets[0].id] = v
+                continue
+            if (isinstance(v, ast.Call) and _u(v.func) == "self.bandwidth_load.setdefault" and len(v.args) == 2
+                    and _u(v.args[1]) == "0.0" and not v.keywords):
+                env[st.targets[0].id] = ast.parse(f"self.bandwidth_load[{_u(v.args[0])}]", mode="eval").body
+                out.append(ast.parse(f"if {_u(v.args[0])} not in self.bandwidth_load:\n    self.bandwidth_load[{_u(v.args[0])}] = 0.0").body[0])
+                continue
+        out.append(st)
+    return out
+
+
+def _key_name(src: str) -> str:
+    """`sender_network_interface.frequency.frequency_hz` -> `frequency_hz` (what the per-frequency budget is indexed by)"""
+    pre = "sender_network_interface.frequency."
+    return src[len(pre):] if src.startswith(pre) else src
+
+
 def _air_transmit(air: ast.ClassDef):
-    b = _body(find_method(air, "transmit"))
+    """(steps, key of the `+=`, key the receivers are looked up by)"""
+    b = _inline_aliases(_body(find_method(air, "transmit")))
     steps = []
-    hz = "self.bandwidth_load[sender_network_interface.frequency.frequency_hz]"
+    load_key = recv_key = None
     for s in b:
-        if isinstance(s, ast.AugAssign) and _u(s.target) == hz and isinstance(s.op, ast.Add) and _u(s.value) == "frame.size_Mbits":
+        if (isinstance(s, ast.AugAssign) and isinstance(s.target, ast.Subscript) and _u(s.target.value) == "self.bandwidth_load"
+                and isinstance(s.op, ast.Add) and _u(s.value) == "frame.size_Mbits"):
             steps.append("reserve")
+            load_key = _key_name(_u(s.target.slice))
         elif isinstance(s, ast.For):
             if len(s.body) != 1 or not isinstance(s.body[0], ast.If):
                 raise ValueError("AirSpace.transmit: loop body is not a single `if`")
@@ -142,22 +186,30 @@ def _air_transmit(air: ast.ClassDef):
                 raise ValueError(f"AirSpace.transmit: unexpected receiver filter {test}")
             if [_u(x) for x in s.body[0].body] != ["wireless_interface.receive_frame(frame)"]:
                 raise ValueError("AirSpace.transmit: unexpected delivery statement")
-            if _u(s.iter) != "self.wireless_interfaces_by_frequency.get(sender_network_interface.frequency.frequency_hz, [])":
-                raise ValueError(f"AirSpace.transmit: receivers are not the interfaces on the sender's hz: {_u(s.iter)}")
+            it = s.iter
+            if not (isinstance(it, ast.Call) and _u(it.func) == "self.wireless_interfaces_by_frequency.get" and len(it.args) == 2
+                    and _u(it.args[1]) == "[]"):
+                raise ValueError(f"AirSpace.transmit: receivers are not looked up in wireless_interfaces_by_frequency: {_u(it)}")
+            recv_key = _key_name(_u(it.args[0]))
             steps.append("deliver")
         else:
             raise ValueError(f"AirSpace.transmit: unrecognised statement {_u(s)}")
-    return steps
+    return steps, load_key, recv_key
 
 
-def _air_can_transmit(air: ast.ClassDef) -> str:
-    b = _body(find_method(air, "can_transmit_frame"))
-    hz = "self.bandwidth_load[sender_network_interface.frequency.frequency_hz]"
-    if not (len(b) == 2 and isinstance(b[0], ast.If)
-            and _u(b[0].test) == "sender_network_interface.frequency.frequency_hz not in self.bandwidth_load"
-            and [_u(x) for x in b[0].body] == [f"{hz} = 0.0"]):
+def _air_can_transmit(air: ast.ClassDef):
+    """(comparison operator, key of the budget the admission test reads)"""
+    b = _inline_aliases(_body(find_method(air, "can_transmit_frame")))
+    if not (len(b) == 2 and isinstance(b[0], ast.If) and not b[0].orelse and isinstance(b[0].test, ast.Compare)
+            and len(b[0].test.ops) == 1 and isinstance(b[0].test.ops[0], ast.NotIn)
+            and _u(b[0].test.comparators[0]) == "self.bandwidth_load"):
         raise ValueError("AirSpace.can_transmit_frame: unexpected shape (missing-key initialisation)")
-    return _admission(b[1], [hz], ["self.get_frequency_max_capacity_mbps(sender_network_interface.frequency.name)"])
+    key = _u(b[0].test.left)
+    hz = f"self.bandwidth_load[{key}]"
+    if [_u(x) for x in b[0].body] != [f"{hz} = 0.0"]:
+        raise ValueError("AirSpace.can_transmit_frame: unexpected shape (missing-key initialisation)")
+    return (_admission(b[1], [hz], ["self.get_frequency_max_capacity_mbps(sender_network_interface.frequency.name)"]),
+            _key_name(key))
 
 
 def _reject_means_node_not_involved(fn: ast.FunctionDef, who: str) -> bool:
@@ -718,13 +770,13 @@ def emit() -> str:
     link = class_def(base, "Link")
     air = class_def(air_t, "AirSpace")
     op_link = _link_can_transmit(link)
-    op_air = _air_can_transmit(air)
+    op_air, key_admit = _air_can_transmit(air)
     is_up = _is_up(link)
     tx = _link_transmit(link)
     wired = _send_order(find_method(class_def(base, "WiredNetworkInterface"), "send_frame"), "WiredNetworkInterface")
     sw = _send_order(find_method(class_def(parse(SWITCH), "SwitchPort"), "send_frame"), "SwitchPort")
     wl = _send_order(find_method(class_def(air_t, "WirelessNetworkInterface"), "send_frame"), "WirelessNetworkInterface")
-    atx = _air_transmit(air)
+    atx, key_load, key_recv = _air_transmit(air)
     # per-tick reset: NAMED step by step (round 6) instead of raised, so that exactly `C18_gen_tick_reset_path` / `C18_gen_flags` fail
     reset_path = tick_reset_path()
     tick_resets = reset_path == EXPECTED_RESET_PATH
@@ -798,7 +850,11 @@ def airspaceArgumentSites : List String := {lst(airspace_argument_sites())}
 def disableClearsLoad : Bool := {"true" if disable_clears else "false"}
 /-- `AirSpace`: `bandwidth_load` and the receiver lists are keyed by `frequency.frequency_hz`; the capacity of the admission
 test is `get_frequency_max_capacity_mbps(sender.frequency.name)` (both shapes are enforced by the extractor) -/
-def airLoadKey : String := "frequency_hz"
+def airLoadKey : String := "{key_load}"
+/-- what each place indexes by: the budget the admission test reads, the budget `transmit` adds to, and the list of receivers
+`transmit` walks (the PHYSICAL channel: who hears the frame).  A budget indexed by anything else than the receivers' key is not a
+budget of the channel the frames go out on. -/
+def airKeys : List (String × String) := [("can_transmit_frame:budget", "{key_admit}"), ("transmit:budget", "{key_load}"), ("transmit:receivers", "{key_recv}")]
 def airCapacityKey : String := "name"
 /-- NIC / RouterInterface / SwitchPort / WirelessAccessPoint `.receive_frame` call their node only on the path that returns True -/
 def rejectedMeansNodeNotInvolved : Bool := {"true" if rej else "false"}
